@@ -252,6 +252,52 @@ func domainOf(t reflect.Type) *domain {
 		}
 		add("nil", func(*pool) reflect.Value { return reflect.Zero(t) })
 		add("{}", mkMap(nil))
+		if t.Key().Kind() != reflect.String {
+			// keys that carry pointers: 0, 1 and 2 entries; two distinct keys with equal
+			// targets, two keys with distinct targets, the nil key; a key built through the
+			// pool can be the same pointer as a value or a component elsewhere in the input
+			kd := domainOf(t.Key())
+			m := len(kd.elems)
+			type pair struct {
+				k     int
+				fresh bool // never taken from the pool: a second, distinct key with an equal target
+				v     int
+			}
+			mk := func(ps ...pair) (string, func(p *pool) reflect.Value) {
+				var ds []string
+				for _, q := range ps {
+					d := kd.elems[q.k].desc
+					if q.fresh {
+						d += "'"
+					}
+					ds = append(ds, d+":"+ed.elems[q.v].desc)
+				}
+				return "{" + strings.Join(ds, " ") + "}", func(p *pool) reflect.Value {
+					mp := reflect.MakeMap(t)
+					for _, q := range ps {
+						kp := p
+						if q.fresh {
+							kp = nil
+						}
+						mp.SetMapIndex(kd.elems[q.k].build(kp), ed.elems[q.v].build(p))
+					}
+					return mp
+				}
+			}
+			for i := range ed.elems {
+				add(mk(pair{m - 1, false, i}))
+			}
+			for j := 0; j < m-1; j++ {
+				add(mk(pair{j, false, n - 1}))
+			}
+			add(mk(pair{m - 1, false, 0}, pair{m - 1, true, n - 1})) // equal targets, two entries
+			add(mk(pair{m - 2, false, 0}, pair{m - 1, false, n - 1}))
+			add(mk(pair{0, false, n - 1}, pair{m - 1, false, n - 1}))
+			if ed.refLike {
+				add(mk(pair{m - 2, false, n - 1}, pair{m - 1, false, n - 1}))
+			}
+			break
+		}
 		for i, e := range ed.elems {
 			add("{k:"+e.desc+"}", mkMap([]string{"k"}, i))
 		}
@@ -409,10 +455,35 @@ func open(v reflect.Value) reflect.Value {
 	return v
 }
 
-func sortedKeys(m reflect.Value) []reflect.Value {
-	ks := m.MapKeys()
-	sort.Slice(ks, func(i, j int) bool { return ks[i].String() < ks[j].String() })
-	return ks
+// entry is one key/value pair of a map together with the structural values of both.
+type entry struct {
+	k, v         reflect.Value
+	kdump, vdump string
+}
+
+// entries lists a map's pairs ordered by the structural value of key, then value. Keys are
+// compared by what they point to, never by identity: two distinct pointer keys with equal
+// targets are two entries with the same kdump.
+func entries(m reflect.Value) []entry {
+	var es []entry
+	for _, k := range m.MapKeys() {
+		v := m.MapIndex(k)
+		es = append(es, entry{k, v, dumpOf(k), dumpOf(v)})
+	}
+	sort.SliceStable(es, func(i, j int) bool {
+		if es[i].kdump != es[j].kdump {
+			return es[i].kdump < es[j].kdump
+		}
+		return es[i].vdump < es[j].vdump
+	})
+	return es
+}
+
+func keyLabel(e entry) string {
+	if e.k.Kind() == reflect.String {
+		return fmt.Sprintf("[%q]", e.k.String())
+	}
+	return "[key " + e.kdump + "]"
 }
 
 // dump is the structural value: nil and empty containers are the same, only len elements of
@@ -443,12 +514,16 @@ func dump(v reflect.Value, sb *strings.Builder) {
 		sb.WriteString("]")
 	case reflect.Map:
 		sb.WriteString("{")
-		for i, k := range sortedKeys(v) {
+		for i, e := range entries(v) {
 			if i > 0 {
 				sb.WriteString(" ")
 			}
-			fmt.Fprintf(sb, "%s:", k.String())
-			dump(v.MapIndex(k), sb)
+			if e.k.Kind() == reflect.String {
+				sb.WriteString(e.k.String())
+			} else {
+				sb.WriteString(e.kdump)
+			}
+			sb.WriteString(":" + e.vdump)
 		}
 		sb.WriteString("}")
 	case reflect.Struct:
@@ -498,12 +573,12 @@ func firstDiff(o, c reflect.Value, path string) (string, string, bool) {
 		}
 	case reflect.Map:
 		if o.Len() == c.Len() {
-			for _, k := range sortedKeys(o) {
-				cv := c.MapIndex(k)
-				if !cv.IsValid() {
-					break
+			oe, ce := entries(o), entries(c)
+			for i := range oe {
+				if oe[i].kdump != ce[i].kdump {
+					break // the key sets differ: a difference of the map itself
 				}
-				if w, p, ok := firstDiff(o.MapIndex(k), cv, fmt.Sprintf("%s[%q]", path, k.String())); ok {
+				if w, p, ok := firstDiff(oe[i].v, ce[i].v, path+keyLabel(oe[i])); ok {
 					if w == "Given" {
 						break
 					}
@@ -531,6 +606,7 @@ type region struct {
 	path  string
 	comb  string // combinator of the value that owns this storage
 	owner string // combinator of the nearest enclosing Ptr/Slice/Seq/GoMap value ("" at top level)
+	inKey bool   // the nearest enclosing such value is a map and this storage hangs off one of its keys
 }
 
 func (r region) String() string {
@@ -542,7 +618,7 @@ func (r region) String() string {
 }
 
 // regions collects every piece of mutable storage reachable from the addressable value v.
-func regions(v reflect.Value, path, owner string, out *[]region, seen map[[2]uintptr]bool) {
+func regions(v reflect.Value, path, owner string, inKey bool, out *[]region, seen map[[2]uintptr]bool) {
 	switch v.Kind() {
 	case reflect.Ptr:
 		if v.IsNil() {
@@ -551,13 +627,13 @@ func regions(v reflect.Value, path, owner string, out *[]region, seen map[[2]uin
 		sz := v.Type().Elem().Size()
 		key := [2]uintptr{v.Pointer(), sz}
 		if sz > 0 { // zero-size targets hold nothing that could be mutated
-			*out = append(*out, region{"ptr-target", v.Pointer(), sz, path, "Ptr", owner})
+			*out = append(*out, region{"ptr-target", v.Pointer(), sz, path, "Ptr", owner, inKey})
 		}
 		if seen[key] {
 			return
 		}
 		seen[key] = true
-		regions(v.Elem(), path+".*", "Ptr", out, seen)
+		regions(v.Elem(), path+".*", "Ptr", false, out, seen)
 	case reflect.Slice:
 		if v.Cap() == 0 {
 			return
@@ -565,32 +641,36 @@ func regions(v reflect.Value, path, owner string, out *[]region, seen map[[2]uin
 		sz := uintptr(v.Cap()) * v.Type().Elem().Size()
 		comb := combinator(v.Type())
 		if sz > 0 {
-			*out = append(*out, region{"slice-array", v.Pointer(), sz, path, comb, owner})
+			*out = append(*out, region{"slice-array", v.Pointer(), sz, path, comb, owner, inKey})
 		}
 		full := v.Slice(0, v.Cap())
 		for i := 0; i < full.Len(); i++ {
-			regions(full.Index(i), fmt.Sprintf("%s[%d]", path, i), comb, out, seen)
+			regions(full.Index(i), fmt.Sprintf("%s[%d]", path, i), comb, false, out, seen)
 		}
 	case reflect.Map:
 		if v.IsNil() {
 			return
 		}
-		*out = append(*out, region{"map", v.Pointer(), 1, path, "GoMap", owner})
-		for _, k := range sortedKeys(v) {
+		*out = append(*out, region{"map", v.Pointer(), 1, path, "GoMap", owner, inKey})
+		for _, e := range entries(v) {
+			// storage reachable through a key counts like storage reachable through a value
+			tk := reflect.New(v.Type().Key()).Elem()
+			tk.Set(e.k)
+			regions(tk, path+"<key "+e.kdump+">", "GoMap", true, out, seen)
 			tmp := reflect.New(v.Type().Elem()).Elem()
-			tmp.Set(v.MapIndex(k))
-			regions(tmp, fmt.Sprintf("%s[%q]", path, k.String()), "GoMap", out, seen)
+			tmp.Set(e.v)
+			regions(tmp, path+keyLabel(e), "GoMap", false, out, seen)
 		}
 	case reflect.Struct:
 		for i := 0; i < v.NumField(); i++ {
-			regions(open(v.Field(i)), path+"."+v.Type().Field(i).Name, owner, out, seen)
+			regions(open(v.Field(i)), path+"."+v.Type().Field(i).Name, owner, inKey, out, seen)
 		}
 	}
 }
 
 func regionsOf(v reflect.Value) []region {
 	var out []region
-	regions(v, "", "", &out, map[[2]uintptr]bool{})
+	regions(v, "", "", false, &out, map[[2]uintptr]bool{})
 	return out
 }
 
@@ -631,19 +711,33 @@ func scramble(v reflect.Value) {
 		}
 		v.Set(reflect.MakeSlice(v.Type(), n+1, n+1))
 	case reflect.Map:
+		newKey := func() reflect.Value {
+			kt := v.Type().Key()
+			switch kt.Kind() {
+			case reflect.String:
+				return reflect.ValueOf("~new").Convert(kt)
+			case reflect.Ptr:
+				return reflect.New(kt.Elem())
+			}
+			return reflect.Zero(kt)
+		}
 		if v.IsNil() {
 			m := reflect.MakeMap(v.Type())
-			m.SetMapIndex(reflect.ValueOf("~new"), reflect.Zero(v.Type().Elem()))
+			m.SetMapIndex(newKey(), reflect.Zero(v.Type().Elem()))
 			v.Set(m)
 			return
 		}
-		for _, k := range sortedKeys(v) {
+		for _, e := range entries(v) {
+			// a key cannot be changed in place, but what it points to can
+			tk := reflect.New(v.Type().Key()).Elem()
+			tk.Set(e.k)
+			scramble(tk)
 			tmp := reflect.New(v.Type().Elem()).Elem()
-			tmp.Set(v.MapIndex(k))
+			tmp.Set(e.v)
 			scramble(tmp)
-			v.SetMapIndex(k, tmp)
+			v.SetMapIndex(e.k, tmp)
 		}
-		v.SetMapIndex(reflect.ValueOf("~new"), reflect.Zero(v.Type().Elem()))
+		v.SetMapIndex(newKey(), reflect.Zero(v.Type().Elem()))
 		v.Set(reflect.Zero(v.Type()))
 	case reflect.Struct:
 		for i := 0; i < v.NumField(); i++ {
@@ -729,6 +823,9 @@ func examine(name string, t reflect.Type, e elem, cloneOf func(orig reflect.Valu
 				key := "clone." + b.comb + "/shares-own-" + b.kind
 				if b.owner != "" {
 					key = "clone." + b.owner + "/shares-component-" + b.kind
+				}
+				if b.inKey {
+					key = "clone.GoMap/shares-key-" + b.kind
 				}
 				return ex, &Finding{key, fmt.Sprintf("%s: value %s: the clone's %v is storage of the original (%v); original %s", name, e.desc, b, a, pre), b.path != "", b.path, b.kind, b.owner == ""}
 			}
